@@ -314,6 +314,19 @@ def run(ck: Checker):
         res_calls = [n for n in walk_shallow_func(outer.node) if isinstance(n, ast.Call) and method_of(n)[1] == 'result']
         ok = len(pn) == len(cn) and bool(res_calls) and is_name(method_of(res_calls[0])[0], cn[1])
     ck.ob('C18-7', outer, cons_t[0] if cons_t else outer.node, ok, f'consumer unpacks {cn} in the producer\'s order {pn} and waits on the future component' if ok else 'consumer unpack does not agree with the producer tuple / does not wait on the future component')
+    # ------------------------------------------------------------------ C18-14
+    ck.rule('C18-14', 'a response goes back on the connection its request came in on: the queue that hands a connection\'s requests to the task that writes responses is created by that connection\'s handler (one per connection), never shared through the server object — each connection has its own responder writing to its own socket, so a shared queue lets a responder pick up another connection\'s request (ORIGIN)', minimum=1)
+    hc = mod.func('SocketServer._handle_connection')
+    kr = mod.func('SocketServer._handle_connection._keep_receiving')
+    kp = mod.func('SocketServer._handle_connection._keep_responding')
+    putq = {method_of(c)[0].id for c in ast.walk(kr.node) if isinstance(c, ast.Call) and method_of(c)[1] in ('put', 'put_nowait') and isinstance(method_of(c)[0], ast.Name)}
+    getq = {method_of(c)[0].id for c in ast.walk(kp.node) if isinstance(c, ast.Call) and method_of(c)[1] in ('get', 'get_nowait') and isinstance(method_of(c)[0], ast.Name)}
+    shared = sorted(putq & getq)
+    ck.need(shared, f'{hc.key}: the queue between the receiving and the responding task is not a local name')
+    qn = shared[0]
+    defs_ = [n for n in walk_shallow_func(hc.node) if isinstance(n, ast.Assign) and any(is_name(t, qn) for t in n.targets)]
+    okq = len(defs_) == 1 and isinstance(defs_[0].value, ast.Call) and (dotted(defs_[0].value.func) or '').split('.')[-1] in ('Queue', 'SimpleQueue', 'LifoQueue', 'SingleLane')
+    ck.ob('C18-14', hc, defs_[0] if defs_ else hc.node, okq, f'`{qn}` is created by the handler of each connection' if okq else f'`{qn}` is `{norm_text(defs_[0].value)[:50] if defs_ else "not bound in the handler"}`, not a queue made by this connection\'s handler: with two connections the responder of one can dequeue the other\'s request and write the response to the wrong socket — the requester never gets its answer and the other client\'s receiver fails on the unknown id')
     # ------------------------------------------------------------------ C18-13
     ck.rule('C18-13', 'a response that has arrived is delivered whatever the clock says: in the consumer of SocketClient.stream and in SocketClient.request a timeout is raised only by the wait on the future itself (`fut.result(timeout=…)`, which returns a result that is already there even for a timeout <= 0), never by comparing the clock (EXITS)', minimum=1)
     for qn in ('SocketClient.stream', 'SocketClient.request'):
